@@ -139,7 +139,11 @@ fn block_tokens(spec: &Spec, v: &V, out: &mut Vec<(Vec<Id>, Vec<Vec<u8>>)>) {
                 c.opts.root.level_items(&mut items);
                 let mut toks = Vec::new();
                 leaves(x, &mut toks);
-                out.push((items.iter().map(|i| i.id).collect(), toks));
+                // id 0 in front: the block of a command starts at the command name, not at the
+                // first declared item
+                let mut ids: Vec<Id> = vec![0];
+                ids.extend(items.iter().map(|i| i.id));
+                out.push((ids, toks));
             }
             block_tokens(&c.opts.root, x, out)
         }
@@ -209,6 +213,21 @@ fn contiguity_violation(spec: &OptSpec, argv: &[Vec<u8>], v: &V) -> Option<Strin
             continue;
         }
         let (lo, hi) = (*ix.iter().min().unwrap(), *ix.iter().max().unwrap());
+        // the run starts at the group's first item
+        if let (Some(first_id), Some(first_tok)) = (ids.first(), toks.first()) {
+            if first_tok == &format!("\0flag:{}", first_id).into_bytes() {
+                if let Some(at) = find(first_tok) {
+                    if at != lo && toks.len() == ix.len() {
+                        return Some(format!(
+                            "the block's first item sits at {} but the value uses item {} ({})",
+                            at,
+                            lo,
+                            String::from_utf8_lossy(&argv[lo])
+                        ));
+                    }
+                }
+            }
+        }
         // anything between lo and hi must belong to this block: no token of another field,
         // no foreign item, no name of an item outside the group
         let mut member_names: Vec<Vec<u8>> = Vec::new();
@@ -529,6 +548,23 @@ fn break_blocks(spec: &OptSpec, units: &[U], rng: &mut Rng) -> Vec<Broken> {
             out.push(Broken {
                 units: m,
                 kind: "nested-member-split-around-later-member",
+                sure: false,
+            });
+        }
+    }
+    // a word member written right in front of the block's first item (`1 --tag 2`)
+    if idx.len() >= 2 && matches!(units[lo].kind, UKind::Flag { .. }) {
+        if let Some(wi) = idx[1..]
+            .iter()
+            .copied()
+            .find(|i| matches!(units[*i].kind, UKind::Word { .. }))
+        {
+            let mut m = units.to_vec();
+            let u = m.remove(wi);
+            m.insert(lo, u);
+            out.push(Broken {
+                units: m,
+                kind: "word-member-in-front-of-first-item",
                 sure: false,
             });
         }
